@@ -247,7 +247,7 @@ func runC19(c *eng.Ctx) {
 		}
 		// on the r != nil path with a non-nil handler, the handler call is not skippable
 		var bad []eng.Edge
-		for _, b := range rec.Blocks {
+		for _, b := range eng.BlocksT(rec) {
 			if len(b.Instrs) == 0 {
 				continue
 			}
@@ -393,7 +393,7 @@ func runC19(c *eng.Ctx) {
 		}
 		// no path with err != nil and an empty latch reaches the decrement without latching
 		var forbid []eng.Edge
-		for _, b := range cs.Blocks {
+		for _, b := range eng.BlocksT(cs) {
 			if len(b.Instrs) == 0 {
 				continue
 			}
